@@ -69,6 +69,47 @@ type StepInfo struct {
 	Dt      time.Duration
 	Results []OpResult
 	Forced  bool // chosen by settle/drain policy, not by the tape
+	Gid     uint64 // goroutine that was released (release steps)
+	InSave  bool   // that goroutine is inside a SaveToStore call: it has passed the hook at the function's entry and no other entry hook since
+}
+
+// saveCall: one call of SaveToStore, from the hook at its entry on.
+type saveCall struct {
+	begin   int   // step in which the goroutine entered
+	atBegin *Snap // what the API reported just before
+	handed  int   // index of the snapshot this call handed to the store, -1 before
+}
+
+// endSaveCall: the goroutine has left SaveToStore for certain (it is back at the top of the persist loop, its client
+// operation has returned, or it has entered another exported function).
+//
+//go:norace
+func (run *Run) endSaveCall(gid uint64) {
+	raceOff()
+	run.heldMu.Lock()
+	delete(run.saving, gid)
+	run.heldMu.Unlock()
+	raceOn()
+}
+
+// otherSaveActive: is a goroutine other than gid inside a SaveToStore call that is not over yet? (It is parked at a
+// hook point, or the store has not finished the snapshot it was handed.)
+func (run *Run) otherSaveActive(gid uint64) bool {
+	w := run.cur
+	for g, c := range run.saving {
+		if g == gid {
+			continue
+		}
+		for _, p := range run.core.parkedQ {
+			if _, _, _, pg, _, _ := p.rd(); pg == g {
+				return true
+			}
+		}
+		if w != nil && w.mem != nil && c.handed >= 0 && c.handed < len(w.mem.handed) && !w.mem.handed[c.handed].Done {
+			return true
+		}
+	}
+	return false
 }
 
 type clientState struct {
@@ -137,7 +178,8 @@ type Run struct {
 	probeRR  int
 	stopMain bool
 	onlyProp string
-	logsBefore   map[string]string // log directory listing taken right before a SaveToStore step (C12 r7)
+	logsBefore   map[string]string // log directory listing taken right before a step of a goroutine that is inside SaveToStore (C12 r7)
+	saving       map[uint64]*saveCall // goroutine id -> the SaveToStore call it is in
 	trackChanges bool
 	settleLong   int
 	CrashLog string // if set, progress is flushed to this file after every step (runs that may kill the process)
@@ -170,7 +212,7 @@ const (
 func NewRun(sc *Scenario, tape *Tape) *Run {
 	return &Run{sc: sc, tape: tape,
 		runnerOwner: map[*prunner.PipelineRunner]*World{}, storeOwner: map[*store.JsonDataStore]*World{},
-		goidTag: map[uint64]int{}, lastLock: map[uint64]lockAttr{}, held: map[uintptr]map[uint64]*heldRec{}, mxCache: map[*prunner.PipelineRunner]uintptr{}, gWorld: map[uint64]*World{}, hello: make(chan helloMsg, 64), done: make(chan OpResult, 64),
+		goidTag: map[uint64]int{}, lastLock: map[uint64]lockAttr{}, saving: map[uint64]*saveCall{}, held: map[uintptr]map[uint64]*heldRec{}, mxCache: map[*prunner.PipelineRunner]uintptr{}, gWorld: map[uint64]*World{}, hello: make(chan helloMsg, 64), done: make(chan OpResult, 64),
 		stats: Stats{Faults: map[string]int{}, Probes: map[string]int{}, AbstractSeen: map[string]bool{}},
 	}
 }
@@ -266,6 +308,7 @@ func (run *Run) skipHook(point string, ctx []interface{}) bool {
 		}
 		return false
 	case "persist.stop":
+		run.endSaveCall(goid()) // top of the persist loop: the previous SaveToStore call of this goroutine is over
 		c, _ := ctx[1].(context.Context)
 		return c != nil && c.Err() != nil
 	case "sched.visit":
@@ -368,6 +411,7 @@ func (run *Run) collect() {
 					cs := run.clients[r.Client]
 					cs.busy = false
 					delete(run.goidTag, cs.goid)
+					delete(run.saving, cs.goid)
 				}
 				run.pendRes = append(run.pendRes, r)
 			default:
@@ -989,16 +1033,27 @@ func (run *Run) apply(ch choice) {
 				w.shutdownBegun = run.step + 1
 			}
 		}
-		if isSavePoint(point) {
+		// Which goroutines are inside a SaveToStore call is told by the hook at the function's entry, not by the names of
+		// the places where it takes locks (a version that splits the function keeps the entry hook, not the names).
+		si.Gid = gid
+		switch {
+		case point == "SaveToStore":
+			run.saving[gid] = &saveCall{begin: run.step + 1, atBegin: run.pre, handed: -1}
 			if w := run.worldOf(owner); w != nil && run.sc.Cfg.Logs && !w.isDead() {
-				run.logsBefore = run.listLogs(w)
 				w.failRemove = 0
 				if run.mode == modeMain && run.sc.Cfg.PRemErr > 0 && run.tape.Pick(1000) >= 1000-run.sc.Cfg.PRemErr {
 					w.failRemove = 1 + run.tape.Pick(3)
 					si.Outcome = fmt.Sprintf("remove#%d-fails", w.failRemove)
 				}
 			}
-
+		case !strings.HasPrefix(point, "auto.") && !strings.HasPrefix(point, "store.") && point != "out.remove":
+			run.endSaveCall(gid) // the goroutine has entered something else
+		}
+		if run.saving[gid] != nil {
+			si.InSave = true
+			if w := run.worldOf(owner); w != nil && run.sc.Cfg.Logs && !w.isDead() {
+				run.logsBefore = run.listLogs(w)
+			}
 		}
 		if _, _, _, g, attr, _ := ch.rec.rd(); attr == lkR || attr == lkW {
 			run.lastLock[g] = attr
